@@ -807,3 +807,58 @@ def kepler_bounded(vc):
     vc.ensure("B-C12-kepler.longitude-residual", bool(0 <= F <= TWO_PI and _wrapdiff(ref, M) <= 1e-9 and _wrapdiff(A_.eccLong2MeanLong(F, h, k), M) <= 1e-9))
     a = vc.real("a", 6600.0, 1e5)
     vc.ensure("B-C12-kepler.sma-from-mean-motion", bool(abs(U_.getSmaFromMeanMotion(U_.getMeanMotion(a)) / a - 1) <= 1e-12))
+
+
+@obligation("C12", "coe_invariants", ensures=["O-C12-chain.radius", "O-C12-chain.angular-momentum", "O-C12-chain.radial-rate", "O-C12-chain.speed", "O-C12-chain.node",
+                                               "O-C12-chain.cut-norms", "O-C12-chain.eccentricity-numerator", "O-C12-chain.periapsis-direction"],
+            fns=[CV + "coe2eci", UT + "getAngularMomentum", UT + "getLineOfNodes", MA + "rot1", MA + "rot3"], mode="R", ax_shift=True, timeout_ms=120000,
+            note="first link of the round trip elements -> state -> elements, on the real coe2eci: the state it returns has |r| = p/(1 + e cos nu), r.v = sqrt(mu/p) |r| e sin nu, "
+                 "|v|^2 = (mu/p)(1 + 2 e cos nu + e^2) (hence vis-viva with a), angular momentum sqrt(mu p)(sin raan sin i, -cos raan sin i, cos i) and node vector "
+                 "sqrt(mu p) sin i (cos raan, sin raan, 0): the eccentricity-vector numerator is mu e P with P the unit periapsis direction (P.r = |r| cos nu, P_z = sin argp sin i, n.P = cos argp): exactly the quantities the helpers of "
+                 "eci2coe work from (O-C12-eci2coe.*, O-C12-angles.*). The LAST link - the real helpers on abstract vectors with these invariants, through sqrt and arccos - was tried and "
+                 "stayed undecided in z3/cvc5 (10 min), so the composed round trip remains a bounded stand-in")
+def coe_invariants(vc):
+    sma = vc.real("sma", 6500.0, 1e5)
+    e = vc.real("e", 0.0, 0.99, special=[0.0, 0.5])
+    inc = vc.angle("inc", 0.0, np.pi, special=[0.0, np.pi, np.pi / 2])
+    raan = vc.angle("raan", 0.0, TWO_PI, special=[0.0])
+    argp = vc.angle("argp", 0.0, TWO_PI, special=[0.0])
+    nu = vc.angle("nu", 0.0, TWO_PI, special=[0.0, np.pi])
+    mu = vc.real("mu", 1.0, 1e6, special=[398600.4418])
+    x = vc.fn(CV + "coe2eci")(sma, e, inc, raan, argp, nu, mu=mu)
+    r, v = x[:3], x[3:]
+    c, s = vc.cos(nu), vc.sin(nu)
+    p = sma * (1.0 - e * e)
+    d = 1.0 + e * c
+    rm = p / d
+    q = vc.sqrt(mu / p)
+    if vc.symbolic:
+        vc.cut("O-C12-chain.cut-norms", vc.And(d > 0, p > 0, q > 0, vc.eq(q * q * p, mu)))
+    else:
+        vc.ensure("O-C12-chain.cut-norms", d > 0 and p > 0)
+    rr = r[0] * r[0] + r[1] * r[1] + r[2] * r[2]
+    rv = r[0] * v[0] + r[1] * v[1] + r[2] * v[2]
+    vv = v[0] * v[0] + v[1] * v[1] + v[2] * v[2]
+    scale = 1e5
+    vc.ensure("O-C12-chain.radius", vc.eq(rr, rm * rm) if vc.symbolic else abs(rr - rm * rm) <= 1e-9 * rm * rm)
+    vc.ensure("O-C12-chain.radial-rate", vc.eq(rv, q * rm * e * s) if vc.symbolic else abs(rv - q * rm * e * s) <= 1e-9 * (1 + abs(q * rm)))
+    vc.ensure("O-C12-chain.speed", vc.eq(vv, q * q * (1 + 2 * e * c + e * e)) if vc.symbolic else abs(vv - q * q * (1 + 2 * e * c + e * e)) <= 1e-9 * vv)
+    h = vc.fn(UT + "getAngularMomentum")(r, v)
+    H = q * p
+    ci, si, cO, sO = vc.cos(inc), vc.sin(inc), vc.cos(raan), vc.sin(raan)
+    want_h = [H * sO * si, -H * cO * si, H * ci]
+    vc.ensure("O-C12-chain.angular-momentum", vc.And(*[vc.eq(h[i], want_h[i]) for i in range(3)]) if vc.symbolic else all(abs(h[i] - want_h[i]) <= 1e-9 * H for i in range(3)))
+    n = vc.fn(UT + "getLineOfNodes")(h)
+    want_n = [H * si * cO, H * si * sO, 0.0]
+    vc.ensure("O-C12-chain.node", vc.And(*[vc.eq(n[i], want_n[i]) for i in range(3)]) if vc.symbolic else all(abs(n[i] - want_n[i]) <= 1e-9 * H for i in range(3)))
+    # the numerator of the eccentricity vector, (v^2 - mu/|r|) r - (r.v) v, is mu e P with P the periapsis direction (first column of the textbook matrix); cleared of denominators
+    cw, sw = vc.cos(argp), vc.sin(argp)
+    P = [cO * cw - sO * sw * ci, sO * cw + cO * sw * ci, sw * si]
+    v2 = q * q * (1 + 2 * e * c + e * e)
+    k = q * rm * e * s
+    num = [(v2 * rm - mu) * r[i] - k * rm * v[i] for i in range(3)]
+    vc.ensure("O-C12-chain.eccentricity-numerator", vc.And(*[vc.eq(num[i], mu * e * P[i] * rm) for i in range(3)]) if vc.symbolic
+              else all(abs(num[i] - mu * e * P[i] * rm) <= 1e-9 * mu * rm for i in range(3)))
+    Pr = P[0] * r[0] + P[1] * r[1] + P[2] * r[2]
+    vc.ensure("O-C12-chain.periapsis-direction", vc.And(vc.eq(P[0] * P[0] + P[1] * P[1] + P[2] * P[2], 1), vc.eq(Pr, rm * c), vc.eq(P[2], sw * si),
+                                                        vc.eq(cO * P[0] + sO * P[1], cw)) if vc.symbolic else abs(Pr - rm * c) <= 1e-9 * rm)
